@@ -15,15 +15,19 @@ RULE = ('generated load tables: 2-6 instances on 1-3 nodes, a random subset RUNN
         'expected_loading 0-100, six strategies; oracle: the chosen instance is eligible and no eligible instance '
         'is strictly better under the strategy key (ties free), None iff nothing is eligible; then real Starter '
         'runs of applications with distribution ALL_INSTANCES / SINGLE_INSTANCE / SINGLE_NODE whose program '
-        'identifiers rules differ from the application rule; non-trivial = at least two eligible instances with '
+        'identifiers rules differ from the application rule (peers identified in a shuffled order; for SINGLE_NODE the '
+        'node and, inside it, the instance of every process are compared with the strategy over the allowed '
+        'instances in declared order); non-trivial = at least two eligible instances with '
         'different keys, or a whole-application placement; distinct = distinct (strategy, distribution, eligible '
         'count, tie pattern) tuples')
 ASSUMPTIONS = ['loads are percentages summed per node over all instances of the node; the 100 cap applies to the '
                'node load including pending requests (statement of C04)']
 FLOORS = {'quick': {'choice_comparisons': 20000, 'nontrivial_choices': 5000, 'application_runs': 1500,
-                    'single_instance_runs': 300, 'single_node_runs': 300},
+                    'single_instance_runs': 300, 'single_node_runs': 300,
+                    'single_node_instance_choices_nontrivial': 300},
           'thorough': {'choice_comparisons': 600000, 'nontrivial_choices': 150000, 'application_runs': 40000,
-                       'single_instance_runs': 9000, 'single_node_runs': 9000}}
+                       'single_instance_runs': 9000, 'single_node_runs': 9000,
+                       'single_node_instance_choices_nontrivial': 8000}}
 ROUNDS = {'quick': 60, 'thorough': 900}   # load tables per case; each table = 20 choices + 3 application runs
 CASES = {'quick': 32, 'thorough': 64}
 
@@ -118,7 +122,10 @@ def run_case(case):
         with single.ctx():
             # let the local instance reach RUNNING by itself, then admit the peers
             w.run_for(12.0)
-            for ident, spec in zip(idents[1:], specs[1:]):
+            # the peers are identified in any order (the order of the handshakes is not the declared order)
+            arrival = list(zip(idents[1:], specs[1:]))
+            rng.shuffle(arrival)
+            for ident, spec in arrival:
                 status = ctx.instances[ident]
                 from supvisors.ttypes import SupvisorsInstanceStates as S
                 status.state = S.CHECKING
@@ -273,6 +280,37 @@ def run_case(case):
                                 if node_load[node] + total_load > 100:
                                     problems.append(f'SINGLE_NODE node {node} cannot carry the whole sequence '
                                                     f'load {total_load} (node load {node_load[node]})')
+                            # the node and, inside it, the instance of each process follow the strategy among the
+                            # allowed instances in declared order (application rule, or the Supvisors list for '*')
+                            feasible = []
+                            for node in sorted(set(node_of.values())):
+                                on_node = [i for i in app_allowed if node_of[i] == node]
+                                if all(any(i in v[3] for i in on_node) for v in procs.values()):
+                                    feasible.extend(i for i in on_node if any(i in v[3] for v in procs.values()))
+                            cands = [i for i in app_allowed if i in feasible]
+                            acceptable, eligible, _ = ref_acceptable(strategy, cands, running, node_of, inst_load,
+                                                                     node_load, {}, total_load, local)
+                            chosen_nodes = {node_of[i] for i in targets.values()}
+                            if targets:
+                                counters['single_node_choices_checked'] = \
+                                    counters.get('single_node_choices_checked', 0) + 1
+                                if not chosen_nodes <= {node_of[i] for i in acceptable}:
+                                    problems.append(f'SINGLE_NODE chose node {sorted(chosen_nodes)}; acceptable under '
+                                                    f'{strategy}: {sorted({node_of[i] for i in acceptable})}')
+                                else:
+                                    for ns, ident in targets.items():
+                                        pcands = [i for i in cands if node_of[i] in chosen_nodes and i in procs[ns][3]]
+                                        pacc, _, disc = ref_acceptable(strategy, pcands, running, node_of, inst_load,
+                                                                       node_load, {}, procs[ns][1], local)
+                                        counters['single_node_instance_choices_checked'] = \
+                                            counters.get('single_node_instance_choices_checked', 0) + 1
+                                        if disc:
+                                            counters['single_node_instance_choices_nontrivial'] = \
+                                                counters.get('single_node_instance_choices_nontrivial', 0) + 1
+                                        if ident not in pacc:
+                                            problems.append(f'SINGLE_NODE sent {ns} to {ident}; acceptable on that '
+                                                            f'node under {strategy}: {sorted(pacc)} (candidates in '
+                                                            f'declared order {pcands})')
                     seen.add((strategy, distribution, len(targets), len(procs)))
                     if sample is None and distribution != 'ALL_INSTANCES' and len(targets) > 1:
                         sample = {'distribution': distribution, 'strategy': strategy, 'targets': targets,
